@@ -18,12 +18,12 @@ CLAIMS = {
             "Trusted: as C06. No axioms.", "4.C07"),
     "C18": ("Coq theorems about the Gallina model of lib/src/nogoods.rs (NoGood, NoGoodStore with the three duplicate-elimination modes, conclusions bucket by bucket, conclusion closure): C18_conclusions_sound (only forced literals, given literals kept), C18_no_spurious_conflict (conflict only if every total extension matches a stored nogood), C18_conflict_on_match, C18_nothing_forgotten (after any add sequence in any mode the store excludes exactly the assignments excluded by the added non-empty nogoods), closure soundness and totality; unbounded in store size, sequence length, positions. Tie: random add sequences (duplicates, supersets, subsets, flips over-represented) x 3 modes x conclusions / closure / conclude / dump queries, model and implementation must agree exactly; the implementation's answers are judged by enumeration of all total assignments. Two genuine defects found by this check on the pinned tree were repaired in /repo (fix: commits, see KNOWN_FINDINGS.txt); the ignored empty nogood is a recorded finding.",
             "Trusted: Coq kernel, extraction + driver, harness incl. the cfg(adf_obdd_verif) hooks (closure wrapper, dump); roaring bitmaps = finite sets of positions. No axioms.", "4.C18"),
-    "C01": ("Differential check (theorems for C01 are being proved; until they are in Properties/C01.v this claim is exploration only): the Gallina model of grounded_internal (native back-end) and the implementation run on all truth-table ADFs with <= 2 statements, random structured ADFs (<= 8, thorough 10 statements), with/without lexicographic sorting; answers (T/F/u vector) judged by an independent least-fixpoint computation over all completions and compared with the extracted model including handle numbers.",
-            "No theorem is claimed yet for this property. biodivine / hybrid back-ends are not yet covered by this check.", "4.C01", "exploration"),
-    "C02": ("Differential check (exploration until the theorems land): complete-model enumeration of model and implementation compared as sequences; judged by enumeration of all 3^n interpretations (sound, complete, duplicate-free, grounded first).",
-            "No theorem is claimed yet. Native back-end only so far.", "4.C02", "exploration"),
-    "C03": ("Differential check (exploration until the theorems land): stable() and stable_with_prefilter() of model and implementation compared as sequences; judged by brute-force stable models (two-valued models whose true statements are re-derived by the grounded interpretation of the reduct).",
-            "No theorem is claimed yet. Native back-end, plain and pre-filter variants so far.", "4.C03", "exploration"),
+    "C01": ("Coq theorems C01_grounded_native (for every store satisfying the invariant and every vector of valid condition handles, the vector returned by the model of grounded_internal IS a Grounded interpretation - fixpoint of the three-valued consequence operator below every fixpoint - of the denoted ADF, and every returned handle denotes its condition with the decided statements substituted), C01_grounded_unique (exactly one grounded interpretation exists: agreement of the back-ends is a corollary of exactness), C01_grounded_total (the loop terminates), C01_parsed_adfs_are_well_formed (every ADF built from parsed formulas satisfies the hypotheses and denotes its formulas). Unbounded in the number of statements, formula shapes, store history, variable order. The biodivine and hybrid back-ends are modelled (Adf/Bio.v) and tied by correspondence; their exactness theorems (Adf/BioProofs.v) are in progress, so for them this claim currently rests on the differential check only. Tie: all truth-table ADFs with <= 2 statements + random structured ADFs (<= 8, thorough 10) on native / biodivine / hybrid with and without pre-grounding, with/without sorting; T/F/u vectors judged by an independent least-fixpoint enumeration and compared with the extracted model including handle numbers.",
+            "Trusted: Coq kernel, extraction + driver, harness; biodivine-lib-bdd = canonical Boolean functions (its dumps are validated per instance under C09). No axioms.", "4.C01"),
+    "C02": ("Coq theorems C02_complete_native (the enumerated list is duplicate-free, contains exactly the Complete interpretations of the denoted ADF, and starts with the grounded one) and C02_complete_total, for all ADFs / stores; built on the iterator theorem (C20) and canonicity. Biodivine / hybrid: modelled and tied by correspondence, theorems in progress. Tie: sequences compared exactly with the model on all back-ends; judged by enumeration of all 3^n interpretations.",
+            "Trusted: as C01. No axioms.", "4.C02"),
+    "C03": ("Coq theorems C03_stability_check (the code's test - grounded interpretation of the reduct equals the candidate on all positions - is equivalent to the definition of stable model), C03_stable_native, C03_stable_with_prefilter (duplicate-free, exactly the Stable interpretations), C03_stable_from_candidates (the filter used by both rewriting variants keeps exactly the stable candidates, in order), totality (an ADF without stable models yields the empty list, never an error). Biodivine's own enumeration and the candidate generation by the single-formula rewriting are modelled and tied by correspondence (multisets for the rewriting variants); their theorems are in progress. Tie: plain / pre-filter / rewrite (pre-built and on demand) on native, biodivine, hybrid +/- pre-grounding; judged by brute-force stable models.",
+            "Trusted: as C01. Repeated ac facts for one statement are outside 'well-formed ADF' (the pre-built rewriting conjoins all of them while compilation lets the last one win; noted in DESIGN.md). No axioms.", "4.C03"),
     "C04": ("Differential check + tie lemma (exploration until the search theorems land): both counting-guided procedures on all n<=2 truth-table ADFs, 3000 (thorough 60000) random n=3 truth-table ADFs and structured ADFs; judged against brute-force stable models (nothing lost, nothing invented, no duplicates); the flag lemma Gen/TieFlagCount.v (regenerated from adf.rs: the cube loop skips an inconsistent cube instead of stopping) must compile. The defect this check found on the pinned tree (thorough tier) is repaired in /repo.",
             "No theorem about the search itself is claimed yet.", "4.C04", "exploration"),
     "C05": ("Differential check + tie lemma (exploration until the search theorems land): nogood-learning search in stable and two-valued mode under Simple, both counting heuristics, Rand (draw stream reproduced from an identically seeded StdRng, sequences compared exactly) and a family of custom static heuristics; every run under a watchdog (non-termination is an observation); judged against brute-force stable / two-valued models. The Rand defect found on the pinned tree is repaired in /repo.",
@@ -32,6 +32,16 @@ CLAIMS = {
             "Only the flag lemma is proved so far.", "4.C12", "exploration"),
     "C13": ("Differential check + tie lemmas (exploration until Bdd/Counts.v lands): programs with interleaved queries (paths, naive models, depth, dependencies, cubes, both impact measures) judged from the implementation's own table by path enumeration and truth tables and compared with the model; the leaf predicates regenerated from datatypes/bdd.rs are proved equal to the model's and more_models is proved to be 'models >= counter-models' (Gen/TieMoreModels.v). more_models defect repaired in /repo; terminal-root cubes and usize overflow at depth >= 64 are recorded findings.",
             "Only the more_models specification is proved so far.", "4.C13", "exploration"),
+    "C19": ("Coq theorems about the model of Bdd::node's sender and Bdd::recv (Bdd/Stream.v): C19_mirror_invariant (for EVERY interleaving of producer operations, single-node transfers and polls: what a mirror holds plus what is in flight equals the upstream table), C19_mirror_prefix (a store that consumed k messages holds exactly the producer's first k+2 nodes, relay and receiver), C19_drained_equal, C19_drain_reaches (draining is always possible and ends with three identical tables), C19_poll_answer (found iff present after polling), C19_recv, C19_producer_stream. Induction over event lists: every schedule at node granularity, all programs, all requested handles. Tie: the harness owns the channels and places cuts between individual node creations; ~10^4 polls per quick run compared with the model and judged (prefix, drained equality, poll answers).",
+            "Trusted: Coq kernel, extraction + driver, harness; crossbeam-channel = linearizable FIFO (a list); real thread interleavings are not exhibited by the model, only message-level cuts. No axioms.", "4.C19"),
+    "C09": ("Translation validation, per instance (theorems in progress): every ADF - small ones and large ones with 20-60 statements and formula depth up to 8 - is compiled natively and imported from biodivine (with and without pre-grounding); the implementation's biodivine dumps are replayed by the extracted model into the store that also holds the natively compiled conditions, and a statement passes iff both handles coincide (equal handle iff equal function by the canonicity theorem C06); tables and root handles are compared exactly with the model's replay; small instances are additionally judged by truth tables of the written formulas. Proved so far: C01_parsed_adfs_are_well_formed (native compilation denotes the formulas). The bridge theorem (bridge_den, validator soundness) is being proved in Adf/BridgeProofs.v.",
+            "biodivine's to_string format is taken from the implementation run through the cfg(adf_obdd_verif) hook.", "4.C09", "translation_validation"),
+    "C10": ("Differential / metamorphic check (equivariance theorems in progress in Spec/Equivariance.v, Front/Presentation.v): each ADF in six presentations (fact order, layout, three sort modes, bijective renaming reversing the lexicographic order); answers compared as sets of label->value maps across presentations and with the model; --lx order checked to be byte-wise.",
+            "natural_lexical_cmp is not modelled (alphanumeric sorting is compared implementation against implementation).", "4.C10", "exploration"),
+    "C11": ("Differential check over call histories (theorem answers_determined in progress): random sequences of public calls on one Adf (all semantics, both searches, Rand, counts, facets, extra formulas on the shared diagram), every answer judged against the definitions, repeated questions must repeat their answers, every bookkeeping table (unique table, var_deps, count cache, ite cache, restrict cache) is hashed through the audit hook and compared with the model's tables after the history, and every history is run twice (determinism).",
+            "HashMap iteration order is not observable through the modelled API.", "4.C11", "exploration"),
+    "C14": ("Differential check (round-trip theorems in progress): serde_json export + import + fix_import, and the web service's path Bdd::from(nodes) + Adf::from, at three life points (fresh, after computations, twice), native and bridged; numbering, roots, unique table and variable sets must be identical, all semantics must answer as before, and the model (import_raw / fix_import / from_nodes) must agree.",
+            "serde transports the records faithfully (exercised). The CLI's no-overwrite clause is checked under C15.", "4.C14", "exploration"),
 }
 
 NOT_YET = "check not built yet in this round (framework under construction; see DESIGN.md section 8 staging)"
